@@ -1,5 +1,5 @@
 //@PROBE file=src/utils/bbox.rs test=verif_probe_bbox_iou_exact_c08 clauses=bbox_iou_exact
-//@BOUND 3000 pseudo-random pairs (sizes 0.1..1e3, aspect 0.2..4, angles None / 0 / multiples of pi/2 / arbitrary incl. |a| > 2pi, equal angles for elongated boxes, partner placed within reach: overlapping, nested, touching, edge sharing, identical, disjoint) at the origin and translated by (8192, -9000) on a dyadic grid; reference: independent f64 convex clipping in the first box's local frame (tolerance 1e-4 x smaller area); the IoU is absent exactly when intersection() is 0; plus equal squares of side 0.1..1000 (axis-aligned and rotated) sharing a corner region of 1%..50% of their side (marginal overlaps at every scale)
+//@BOUND 3000 pseudo-random pairs (sizes 0.1..1e3, aspect 0.2..4, angles None / 0 / multiples of pi/2 / arbitrary incl. |a| > 2pi, equal angles for elongated boxes, partner placed within reach: overlapping, nested, touching, edge sharing, identical, disjoint) at the origin and translated by (8192, -9000) on a dyadic grid; reference: independent f64 convex clipping in the first box's local frame (tolerance 1e-4 x smaller area); the IoU is absent exactly when intersection() is 0; plus equal squares of side 0.1..1000 (axis-aligned and rotated) sharing a corner region of 1%..50% of their side (marginal overlaps at every scale); elongated boxes at angles of many turns (1e3..1e5 rad)
 #[cfg(test)]
 mod verif_probe_bbox_iou_exact_c08 {
     // Bounded stand-in for the numeric clauses of C08 that the Kani harnesses cannot pin (trigonometry, f64 clipping):
@@ -88,6 +88,27 @@ mod verif_probe_bbox_iou_exact_c08 {
             let i1 = Universal2DBox::calculate_metric_object(&Some(&at), &Some(&bt));
             match (i0, i1) { (Some(x), Some(y)) => if (x - y).abs() > 2e-4 { failures.push(format!("PROBE input: pair #{}: bbox_iou_exact.iou_invariant_under_common_translation: {} at the origin, {} after translating both boxes by (8192, -9000)", it, x, y)); }, (None, None) => {}, (x, y) => if x.unwrap_or(0.0).max(y.unwrap_or(0.0)) > 1e-3 { failures.push(format!("PROBE input: pair #{}: bbox_iou_exact.iou_invariant_under_common_translation: {:?} vs {:?}", it, x, y)); } }
         }
+        // ---- angles of many turns on elongated boxes: the rectangle is the one rotated by the angle AS GIVEN (an angular error of 1e-4 rad moves
+        // the tip of a 200 x 2 box by a hundredth of its width)
+        for ang in [1000.0f32, -700.0, 12345.678, 1.0e5, -54321.0] { for (asp, h) in [(100.0f32, 2.0f32), (0.01, 200.0)] {
+            cases += 1;
+            let a = Universal2DBox::new(50.0, 50.0, Some(ang), asp, h);
+            let turns = ((ang as f64) / std::f64::consts::TAU).floor();
+            let b = Universal2DBox::new(50.0, 50.0, Some(((ang as f64) - turns * std::f64::consts::TAU) as f32), asp, h); // the same rectangle, whole turns removed in f64
+            let c = Universal2DBox::new(60.0, 45.0, Some(0.4), 1.0, 60.0);
+            for (x, y, what) in [(&a, &c, "against a crossing box"), (&c, &a, "crossing box first"), (&a, &b, "against itself with the whole turns removed")] {
+                let ctx = format!("PROBE input: box (50,50,angle {},aspect {},height {}) {}", ang, asp, h, what);
+                let want = reference(x, y);
+                let got = Universal2DBox::intersection(x, y);
+                let small = (x.area().min(y.area())) as f64;
+                if (got - want).abs() > 2e-3 * small { failures.push(format!("{}: bbox_iou_exact.intersection_is_the_true_area: {} vs reference {}", ctx, got, want)); continue; }
+                let wiou = want / (x.area() as f64 + y.area() as f64 - want);
+                match Universal2DBox::calculate_metric_object(&Some(x), &Some(y)) {
+                    None => failures.push(format!("{}: bbox_iou_exact.iou_absent_only_without_overlap: absent", ctx)),
+                    Some(v) => if (v as f64 - wiou).abs() > 2e-3 { failures.push(format!("{}: bbox_iou_exact.iou_is_intersection_over_union: {} vs reference {}", ctx, v, wiou)); },
+                }
+            }
+        } }
         // ---- marginal overlaps at every scale: two equal squares (side s, common angle) sharing a corner region of f x f of their side
         for s in [0.1f32, 0.3, 1.0, 30.0, 1000.0] { for f in [0.01f32, 0.03, 0.1, 0.5] { for ang in [None, Some(0.0f32), Some(0.7), Some(-2.2)] {
             cases += 1;
